@@ -5,14 +5,21 @@ From TkSpec Require Import Balance_spec Group_spec.
 From TkProofs Require Import Base_proofs Time_proofs Time_sweep.
 Local Open Scope Z_scope.
 
-Lemma sweep_facts :
-  (forall r, 0 <= r < 146097 -> day_ok r = true)
-  /\ (forall r, 0 <= r < 146097 ->
-        period_num GbDate r < period_num GbDate (r + 1)
-        /\ period_num GbIsoWeekDate r < period_num GbIsoWeekDate (r + 1)).
+Lemma days_facts :
+  (forall r, 0 <= r < 146097 -> civil_ok r = true)
+  /\ (forall r, 0 <= r < 146097 -> period_num GbDate r < period_num GbDate (r + 1)).
 Proof.
-  destruct (sweep_spec _ _ _ _ cycle_sweep) as (A & B & _).
+  destruct (sweep_days_spec _ _ _ cycle_days) as (A & B & _).
   split; intros r Hr; [apply A|apply B]; rewrite Z2Nat.id by lia; lia.
+Qed.
+
+Lemma weeks_facts :
+  (forall k, 0 <= k < 20871 -> iso_ok (4 + 7 * k) = true)
+  /\ (forall k, 0 <= k < 20871 ->
+        period_num GbIsoWeek (4 + 7 * k) < period_num GbIsoWeek (4 + 7 * k + 7)).
+Proof.
+  destruct (sweep_weeks_spec _ _ _ cycle_weeks) as (A & B & _).
+  split; intros k Hk; [apply A|apply B]; rewrite Z2Nat.id by lia; lia.
 Qed.
 
 (* ---------------- every day number ---------------- *)
@@ -21,25 +28,95 @@ Lemma civil_facts z :
   1 <= m <= 12 /\ 1 <= d <= days_in_month y m /\ days_of_civil y m d = z.
 Proof.
   destruct (cycle_decomp z) as (q & r & -> & Hr).
-  pose proof (proj1 sweep_facts r Hr) as H. unfold day_ok, day_ok_of in H.
+  pose proof (proj1 days_facts r Hr) as H. unfold civil_ok, civil_ok_of in H.
   rewrite civil_shift. destruct (civil_of_days r) as [[y m] d]. cbn [fst snd].
-  destruct (iso_of_days r) as [[iy w] wd].
-  rewrite !andb_true_iff in H. destruct H as (((((((((H1 & H2) & H3) & H4) & H5) & _) & _) & _) & _) & _).
+  rewrite !andb_true_iff in H. destruct H as ((((H1 & H2) & H3) & H4) & H5).
   rewrite days_in_month_shift, days_of_civil_shift.
   apply Z.leb_le in H1, H2, H3, H4. apply Z.eqb_eq in H5. lia.
+Qed.
+
+(* Mondays *)
+Lemma monday_decomp mon : weekday mon = 1 ->
+  exists q k, mon = 4 + 7 * k + 146097 * q /\ 0 <= k < 20871.
+Proof.
+  unfold weekday. intros H.
+  assert ((mon + 3) mod 7 = 0) as H0 by lia.
+  pose proof (Z.div_mod (mon + 3) 7 ltac:(lia)) as D. rewrite H0 in D.
+  set (j := (mon + 3) / 7 - 1).
+  exists (j / 20871), (j mod 20871). split.
+  - pose proof (Z.div_mod j 20871 ltac:(lia)). unfold j in *. lia.
+  - apply Z.mod_pos_bound. lia.
+Qed.
+
+Lemma week_num_shift z q : period_num GbIsoWeek (z + 146097 * q) = period_num GbIsoWeek z + 40000 * q.
+Proof.
+  unfold period_num. rewrite iso_shift. destruct (iso_of_days z) as [[y m] d]. cbn [fst snd]. ring.
+Qed.
+
+Lemma monday_facts mon : weekday mon = 1 ->
+  1 <= snd (fst (iso_of_days mon)) <= 53
+  /\ snd (iso_of_days mon) = 1
+  /\ days_of_iso (fst (fst (iso_of_days mon))) (snd (fst (iso_of_days mon))) 1 = mon
+  /\ period_num GbIsoWeek mon < period_num GbIsoWeek (mon + 7).
+Proof.
+  intros Hm. destruct (monday_decomp mon Hm) as (q & k & -> & Hk).
+  assert (forall A B C D : Prop, (A /\ B /\ C) -> D -> A /\ B /\ C /\ D) as X by tauto.
+  apply X; clear X.
+  - pose proof (proj1 weeks_facts k Hk) as H. unfold iso_ok, iso_ok_of in H.
+    rewrite iso_shift. destruct (iso_of_days (4 + 7 * k)) as [[y w] wd]. cbn [fst snd].
+    rewrite !andb_true_iff in H. destruct H as (((H1 & H2) & H3) & H4).
+    rewrite days_of_iso_shift.
+    apply Z.leb_le in H1, H2. apply Z.eqb_eq in H3, H4. subst wd. lia.
+  - replace (4 + 7 * k + 146097 * q + 7) with (4 + 7 * k + 7 + 146097 * q) by ring.
+    rewrite !week_num_shift. pose proof (proj2 weeks_facts k Hk). lia.
+Qed.
+
+(* the seven days of a week share its Thursday *)
+Lemma weekday_of_monday mon i : weekday mon = 1 -> 0 <= i <= 6 -> weekday (mon + i) = i + 1.
+Proof.
+  unfold weekday. intros H Hi.
+  assert ((mon + 3) mod 7 = 0) as H0 by lia.
+  pose proof (Z.div_mod (mon + 3) 7 ltac:(lia)) as D. rewrite H0 in D.
+  replace (mon + i + 3) with (i + ((mon + 3) / 7) * 7) by lia.
+  rewrite Z.mod_add by lia. rewrite Z.mod_small by lia. reflexivity.
+Qed.
+
+Lemma iso_of_week mon i : weekday mon = 1 -> 0 <= i <= 6 ->
+  iso_of_days (mon + i) = (fst (fst (iso_of_days mon)), snd (fst (iso_of_days mon)), i + 1).
+Proof.
+  intros Hm Hi. unfold iso_of_days. cbv zeta.
+  rewrite (weekday_of_monday mon i Hm Hi), Hm. cbn [fst snd].
+  replace (mon + i - (i + 1) + 4) with (mon - 1 + 4) by ring. reflexivity.
+Qed.
+
+Lemma monday_of z : weekday (z - (weekday z - 1)) = 1 /\ 0 <= weekday z - 1 <= 6.
+Proof.
+  unfold weekday. pose proof (Z.mod_pos_bound (z + 3) 7 ltac:(lia)) as B. split; [|lia].
+  pose proof (Z.div_mod (z + 3) 7 ltac:(lia)) as D.
+  replace (z - ((z + 3) mod 7 + 1 - 1) + 3) with (0 + ((z + 3) / 7) * 7) by lia.
+  rewrite Z.mod_add by lia. reflexivity.
+Qed.
+
+Lemma days_of_iso_wd y w wd : days_of_iso y w wd = days_of_iso y w 1 + (wd - 1).
+Proof. unfold days_of_iso. cbv zeta. ring. Qed.
+
+Lemma iso_facts_week mon i : weekday mon = 1 -> 0 <= i <= 6 ->
+  let '(y, w, wd) := iso_of_days (mon + i) in
+  1 <= w <= 53 /\ 1 <= wd <= 7 /\ days_of_iso y w wd = mon + i.
+Proof.
+  intros Hm Hi. rewrite (iso_of_week mon i Hm Hi).
+  destruct (monday_facts mon Hm) as (Hw & _ & Hd & _).
+  split; [exact Hw|]. split; [lia|].
+  rewrite days_of_iso_wd, Hd. ring.
 Qed.
 
 Lemma iso_facts z :
   let '(y, w, wd) := iso_of_days z in
   1 <= w <= 53 /\ 1 <= wd <= 7 /\ days_of_iso y w wd = z.
 Proof.
-  destruct (cycle_decomp z) as (q & r & -> & Hr).
-  pose proof (proj1 sweep_facts r Hr) as H. unfold day_ok, day_ok_of in H.
-  rewrite iso_shift. destruct (civil_of_days r) as [[y m] d].
-  destruct (iso_of_days r) as [[iy w] wd]. cbn [fst snd].
-  rewrite !andb_true_iff in H. destruct H as (((((((((_ & _) & _) & _) & _) & H1) & H2) & H3) & H4) & H5).
-  rewrite days_of_iso_shift.
-  apply Z.leb_le in H1, H2, H3, H4. apply Z.eqb_eq in H5. lia.
+  destruct (monday_of z) as [Hm Hi].
+  pose proof (iso_facts_week _ _ Hm Hi) as H.
+  replace (z - (weekday z - 1) + (weekday z - 1)) with z in H by ring. exact H.
 Qed.
 
 Lemma days_in_month_le y m : days_in_month y m <= 31.
@@ -53,24 +130,37 @@ Proof.
   unfold period_num. rewrite civil_shift. destruct (civil_of_days z) as [[y m] d]. cbn [fst snd]. ring.
 Qed.
 
-Lemma weekdate_num_shift z q :
-  period_num GbIsoWeekDate (z + 146097 * q) = period_num GbIsoWeekDate z + 400000 * q.
-Proof.
-  unfold period_num. rewrite iso_shift. destruct (iso_of_days z) as [[y m] d]. cbn [fst snd]. ring.
-Qed.
-
 Lemma date_num_step z : period_num GbDate z < period_num GbDate (z + 1).
 Proof.
   destruct (cycle_decomp z) as (q & r & -> & Hr).
   replace (r + 146097 * q + 1) with (r + 1 + 146097 * q) by ring.
-  rewrite !date_num_shift. pose proof (proj2 sweep_facts r Hr). lia.
+  rewrite !date_num_shift. pose proof (proj2 days_facts r Hr). lia.
+Qed.
+
+Lemma weekdate_num_step_week mon i : weekday mon = 1 -> 0 <= i <= 6 ->
+  period_num GbIsoWeekDate (mon + i) < period_num GbIsoWeekDate (mon + i + 1).
+Proof.
+  intros Hm Hi. destruct (monday_facts mon Hm) as (_ & _ & _ & S).
+  unfold period_num at 1. rewrite (iso_of_week mon i Hm Hi).
+  destruct (Z.eq_dec i 6) as [E|NE].
+  - replace (mon + i + 1) with (mon + 7 + 0) by lia.
+    assert (weekday (mon + 7) = 1) as Hm7.
+    { unfold weekday in *. replace (mon + 7 + 3) with (mon + 3 + 1 * 7) by ring.
+      rewrite Z.mod_add by lia. exact Hm. }
+    unfold period_num at 1. rewrite (iso_of_week (mon + 7) 0 Hm7 ltac:(lia)).
+    unfold period_num in S.
+    destruct (iso_of_days mon) as [[y w] wd]. destruct (iso_of_days (mon + 7)) as [[y' w'] wd'].
+    cbn [fst snd] in *. lia.
+  - replace (mon + i + 1) with (mon + (i + 1)) by ring.
+    unfold period_num at 1. rewrite (iso_of_week mon (i + 1) Hm ltac:(lia)).
+    destruct (iso_of_days mon) as [[y w] wd]. cbn [fst snd]. lia.
 Qed.
 
 Lemma weekdate_num_step z : period_num GbIsoWeekDate z < period_num GbIsoWeekDate (z + 1).
 Proof.
-  destruct (cycle_decomp z) as (q & r & -> & Hr).
-  replace (r + 146097 * q + 1) with (r + 1 + 146097 * q) by ring.
-  rewrite !weekdate_num_shift. pose proof (proj2 sweep_facts r Hr). lia.
+  destruct (monday_of z) as [Hm Hi].
+  pose proof (weekdate_num_step_week _ _ Hm Hi) as H.
+  replace (z - (weekday z - 1) + (weekday z - 1)) with z in H by ring. exact H.
 Qed.
 
 Lemma month_num_div z : period_num GbMonth z = period_num GbDate z / 100.
